@@ -31,7 +31,7 @@ def mk_ma(lit):
         a = Asset()
         for n, q in names:
             a[AssetName(bytes.fromhex(n))] = q
-        ma[ScriptHash(bytes.fromhex(p))] = a
+        ma[pol(p)] = a
     return ma
 
 
